@@ -42,6 +42,7 @@ type Contract struct {
 	Results  []string
 	Requires []*Expr
 	Ensures  []*Expr
+	Checks   []*Expr // postconditions that mention internal variables (witnesses): verified, not exported to callers
 	Names    []*Expr // definitional clauses: assumed at call sites, never checked (they name the verdict of a deterministic operation)
 	Assigns  []*Expr
 	HasAssigns bool
@@ -81,7 +82,7 @@ type ContractSet struct {
 }
 
 var clauseKeywords = map[string]bool{"func": true, "interface": true, "spec": true, "abstract": true, "requires": true, "ensures": true,
-	"assigns": true, "loop": true, "decreases": true, "arith": true, "pure": true, "lemma": true, "trusted": true, "noframe": true, "invariant": true, "nonnil": true, "names": true, "ospec": true}
+	"assigns": true, "loop": true, "decreases": true, "arith": true, "pure": true, "lemma": true, "trusted": true, "noframe": true, "invariant": true, "nonnil": true, "names": true, "ospec": true, "checks": true}
 
 func loadContracts(files []string) (*ContractSet, error) {
 	cs := &ContractSet{funcs: map[string]*Contract{}, ifaces: map[string]*Contract{}, specs: map[string]*specFn{}, invs: map[string][]*TypeInv{}, nonnil: map[string]bool{}}
@@ -187,7 +188,7 @@ func (cs *ContractSet) loadFile(path string) error {
 			lm.Pkg = pkg
 			cs.lemmas = append(cs.lemmas, lm)
 			cur = nil
-		case "requires", "ensures", "decreases", "names":
+		case "requires", "ensures", "decreases", "names", "checks":
 			if cur == nil {
 				return fail(fmt.Errorf("clause outside a contract"))
 			}
@@ -202,6 +203,8 @@ func (cs *ContractSet) loadFile(path string) error {
 				cur.Ensures = append(cur.Ensures, e)
 			case "names":
 				cur.Names = append(cur.Names, e)
+			case "checks":
+				cur.Checks = append(cur.Checks, e)
 			default:
 				cur.Decreases = append(cur.Decreases, e)
 			}
